@@ -20,6 +20,7 @@ def _p7():
 class ExecSide(object):
     exec_sel = []               # names out of C07_CLAUSES
     exec_n = (120, 2500)        # executor cases per tier
+    exec_total = None           # number of host + executor clauses, when further clauses follow (harness/sides.py)
     exec_header = X.COQ_HEADER
     exec_trusted = ('executor side: harness/execlib.py (real Popen executor object without __init__, four real threads '
                     'under a sys.settrace line-granular scheduler, fake subprocess.Popen/os.killpg/clock); steps and '
@@ -60,7 +61,7 @@ class ExecSide(object):
         return super().run_impl(case)
 
     def coq_row(self, case, obs):
-        nb = len(self.clauses) - len(self.exec_sel)
+        nb = (self.exec_total or len(self.clauses)) - len(self.exec_sel)      # clauses before the executor's
         if self.is_exec(case):
             sel = '; '.join('nth %d%%nat r true' % (1 + C07_CLAUSES.index(c)) for c in self.exec_sel)
             return '(let r := (c07_row %s) in hd false r :: (repeat true %d%%nat ++ [%s]))' % (
